@@ -155,7 +155,6 @@ Definition split_uasm_with (sp : text -> text -> option (text * text)) (src : te
   inr (Raw root deps exports bindings functions imacros cmacros spans files expansions (trim rest'))
   end end end end end end end end end.
 
-Definition split_uasm := split_uasm_with split_once.
 
 (** the spans section is read with [split('\n')], one span per piece (an empty piece is
     Span::Builtin), and the last one is popped (assembly.rs:336-359; the assertion that the
@@ -170,7 +169,8 @@ Definition from_uasm_with (sp : text -> text -> option (text * text)) (src : tex
                    (lines_ne (r_cmacros r)) (span_lines (r_spans r)) (lines_ne (r_files r))
                    (lines_ne (r_expansions r)) (lines (r_strings r)))
   end.
-Definition from_uasm := from_uasm_with split_once.
+(** the reader before 0f91cb1: bare marker words found with split_once *)
+Definition from_uasm_pre := from_uasm_with split_once.
 
 (** what the reader is expected to give back: everything, plus one more Builtin span after a
     non-empty span list (the blank line before "FILES"; harmless) *)
@@ -179,7 +179,7 @@ Definition reread (a : sections) : sections :=
     (s_cmacros a) (match s_spans a with [] => [] | l => l ++ [[]] end) (s_files a)
     (s_expansions a) (s_strings a).
 
-(** ---- the repaired reader: a marker is a whole line.  Same cascade, but the text is cut at
+(** ---- the current reader (fn split_marker inside from_uasm): a marker is a whole line.  Same cascade, but the text is cut at
     the first LINE that equals the marker (a line ends at '\n', one '\r' before it is ignored):
       fn split_marker(s, m) { for line in s.split_inclusive('\n') { if line sans '\n', sans '\r' == m {cut here} } } *)
 Fixpoint text_eqb (a b : text) : bool :=
@@ -212,7 +212,8 @@ Fixpoint split_marker_aux (m : text) (bol : bool) (s : text) : option (text * te
             end
   end.
 Definition split_marker (m s : text) : option (text * text) := split_marker_aux m true s.
-Definition from_uasm' := from_uasm_with split_marker.
+(** the current reader (assembly.rs:252-283 after 0f91cb1) *)
+Definition from_uasm := from_uasm_with split_marker.
 
 (** premises of the round trip, as executable predicates *)
 Definition line_ok (l : text) : bool :=
@@ -254,6 +255,21 @@ Definition no_marker_lines (a : sections) : bool :=
   no_line_is M_SPANS (s_cmacros a) && no_line_is M_FILES (s_spans a) &&
   no_line_is M_MACRO_EXPANSIONS (s_files a) && no_line_is M_STRING_INPUTS (s_expansions a).
 
+(** Every line [to_uasm] writes contains a character that is neither an upper-case letter nor a
+    blank (JSON lines: a quote, bracket, brace or digit; dependency/export/binding lines: the
+    digits of the hash/index/span; comment lines: a colon; macro lines: the index digits; span
+    lines: brackets, or the line is empty; file lines: a colon and quotes).  The markers consist
+    of upper-case letters and blanks only. *)
+Definition is_marker_char (c : N) : bool := ((65 <=? c) && (c <=? 90)) || (c =? 32).
+Definition has_low (l : text) : bool := existsb (fun c => negb (is_marker_char c)) l.
+Definition span_shape (l : text) : bool :=
+  match l with [] => true | _ => has_low l && match rev l with c :: _ => negb (is_ws c) | [] => false end end.
+Definition written_shape (a : sections) : bool :=
+  forallb has_low (s_root a) && forallb has_low (s_deps a) && forallb has_low (s_exports a) &&
+  forallb has_low (s_bindings a) && forallb has_low (s_functions a) && forallb has_low (s_imacros a) &&
+  forallb has_low (s_cmacros a) && forallb span_shape (s_spans a) && forallb has_low (s_files a) &&
+  forallb has_low (s_expansions a).
+
 (** a JSON line starts with a double quote, [ { digit - t f n : never with an upper-case letter *)
 Definition json_start (c : N) : bool :=
   (c =? 34) || (c =? 91) || (c =? 123) || (c =? 45) || ((48 <=? c) && (c <=? 57)) ||
@@ -280,5 +296,6 @@ Definition summary (r : nat + sections) : list N :=
   | inl k => [0; N.of_nat k]
   | inr a => [1; N_len (s_root a); N_len (s_deps a); N_len (s_exports a); N_len (filter (fun l => negb (is_cont l)) (s_bindings a));
               N_len (s_functions a); N_len (s_imacros a); N_len (s_cmacros a); N_len (s_spans a);
-              N_len (s_files a); N_len (s_expansions a); N_len (s_strings a)]
+              N_len (s_files a); N_len (s_expansions a); N_len (s_strings a);
+              (if sections_wf a && written_shape a then 1 else 0)]
   end.
